@@ -178,7 +178,16 @@ pub fn resolve_constant(
     }
 
 
-    if symbol.value != prev_value
+    // Integers compare by numeric value only, but a constant
+    // also carries its size into the expressions that use it
+    let size_changed = match (&symbol.value, &prev_value)
+    {
+        (expr::Value::Integer(new), expr::Value::Integer(prev)) =>
+            new.size != prev.size,
+        _ => false,
+    };
+
+    if symbol.value != prev_value || size_changed
     {
         // On the final iteration, unstable guesses become errors
         if ctx.is_last_iteration
